@@ -108,7 +108,7 @@ def run(ctx):
                 seen.add(key)
                 short = [{k: (v if not (isinstance(v, list) and len(v) > 12) else "%d items" % len(v)) for k, v in e.items()} for e in hist[-10:]]
                 ctx.violation(b["check"], {"trace_line": b["line"], "fen": hist[0].get("fen"), "history_tail": short},
-                              {"kind": "trace", "trace": kept, "line": b["line"], "module": "MoveIterTrace"})
+                              {"kind": "trace", "record_args": [str(a) for a in h["args"]], "trace": kept, "line": b["line"], "module": "MoveIterTrace"})
         if len(ctx.cov["samples"]) < 3:
             first = [json.loads(x) for x in open(tr).read().split("\n")[:6] if x]
             ctx.sample({"direction": "impl->spec", "scenario": name,
